@@ -178,6 +178,49 @@ func c19Families(tier string) []explore.Family {
 			c19Compare(r, ti, q, q, "len<=2")
 		}
 	}})
+	// quadruples that spell the SAME string when concatenated (e.g. < >> [ ] and <> > [ ]) used back to back, in both
+	// orders, with nothing scanned in between: whatever is remembered about delimiters must distinguish them.
+	// All strings of length 4..6|7 over the punctuation alphabet, all their splits into four non-empty parts.
+	maxS := 6
+	if tier == "thorough" {
+		maxS = 7
+	}
+	type qpair struct{ a, b [4]string }
+	var pairs []qpair
+	cntS := seqCount(len(p), maxS)
+	for si := int64(0); si < cntS; si++ {
+		S := joinSyms(p, seqAt(len(p), si), "")
+		if len(S) < 4 {
+			continue
+		}
+		var splits [][4]string
+		for i := 1; i < len(S); i++ {
+			for j := i + 1; j < len(S); j++ {
+				for k := j + 1; k < len(S); k++ {
+					q := [4]string{S[:i], S[i:j], S[j:k], S[k:]}
+					if len(q[0]) <= 4 && len(q[1]) <= 4 && len(q[2]) <= 4 && len(q[3]) <= 4 && c19Valid(q) {
+						splits = append(splits, q)
+					}
+				}
+			}
+		}
+		for x := range splits {
+			for y := range splits {
+				if x != y {
+					pairs = append(pairs, qpair{splits[x], splits[y]})
+				}
+			}
+		}
+	}
+	fams = append(fams, explore.Family{Name: "colliding-quadruples-back-to-back", Count: int64(len(pairs)), Run: func(i int64, r *explore.Rec) {
+		pr := pairs[i]
+		r.Trace()
+		for ti := 0; ti < nt && ti < 4; ti++ {
+			c19Base(ti) // make sure the default-spelling baseline is cached: nothing but the pair is scanned below
+			c19Compare(r, ti, pr.a, pr.a, "colliding")
+			c19Compare(r, ti, pr.b, pr.b, "colliding")
+		}
+	}})
 	// lengths 3 and 4 (not exhaustive): one pattern per length built from the length-<=2 strings
 	var long [][4]string
 	two := c19Strings(p, 2)
